@@ -34,13 +34,17 @@ def gen_tree_case(rng):
   specs = gen_specs(rng, regs, 0, counter)
   # force conflicts: re-bind one parameter around the includes
   binds = [sp for sp in specs if sp[0] == 'bind']
+  missing = rng.random() < 0.15
   for i, sp in enumerate(list(specs)):
     if sp[0] == 'include' and binds:
       b0 = rng.choice(binds)
       sp[2].insert(rng.randint(0, len(sp[2])), ('bind', b0[1], b0[2], b0[3], rng.randint(100, 199)))
       specs.insert(i + 1, ('bind', b0[1], b0[2], b0[3], rng.randint(200, 299)))
+      if rng.random() < 0.35 and not missing:
+        # the same file included a second time: it is applied again, in place (not combined with a
+        # fault: the file has one text)
+        specs.insert(i + 2, sp)
       break
-  missing = rng.random() < 0.15
   fault = [rng.randint(0, count_positions(specs) - 1), 'bad_include', False] if missing else None
   files, flat = {}, []
   text, stmts, _ = render(rng, specs, regs, fault, files, flat)
@@ -81,16 +85,22 @@ def gen_resolve_case(rng):
   nloc = rng.randint(1, 4)
   prefixes = [''] + ['loc%d' % i for i in range(1, nloc)]
   readers = ['open'] + ['mem%d' % i for i in range(1, rng.randint(1, 3))]
-  pairs = [(p, r) for p in prefixes for r in readers]
   is_abs = rng.random() < 0.25
+  pkg = (not is_abs) and rng.random() < 0.4
+  if pkg:
+    readers = [readers[0], 'syspath'] + readers[1:]
+  pairs = [(p, r) for p in prefixes for r in readers if r != 'syspath' or p == '']
   if is_abs:
     pairs = [('', r) for r in readers]
   present = rng.sample(pairs, rng.randint(0, len(pairs)))
   if rng.random() < 0.15:
     present = []
   name = 'res_%04d.gin' % rng.randint(0, 9999)
+  if pkg:
+    name = 'c14rp%d/%s' % (rng.randint(0, 99999), name)
   ops = [{'op': 'resolve', 'prefixes': prefixes, 'readers': readers, 'abs': is_abs,
-          'present': [list(x) for x in present], '_name': name}]
+          'present': [list(x) for x in present], '_name': name, '_pkg': pkg, '_bad_include': bool(present) and rng.random() < 0.25,
+          '_dirs': [l for l in prefixes + ['syspath'] if rng.random() < 0.2]}]
   return {'dom': 'gin', 'ops': ops, '_kind': 'resolve', '_nregs': 0}
 
 
